@@ -69,6 +69,7 @@ func specDnlKey(name enc.Name, nonce uint32) uint64 { return enc.SpecNameHash(na
 
 //@ func (PitEntry).OutRecords
 //@   ensures result != nil ==> forall(func(k uint64) bool { return mapHas(result, k) ==> result[k] != nil })
+//@   ensures typeIs(self, "*nameTreePitEntry") ==> result == self.(*nameTreePitEntry).outRecords
 
 //@ func (PitEntry).GetOutRecords
 //@   ensures forallIn(0, len(result), func(i int) bool { return result[i] != nil })
